@@ -4,6 +4,7 @@
   the property needs it the conclusion offers an explicit `Collision H` instead.
 -/
 import Sidetree.Lemmas.Hashing
+import Sidetree.Lemmas.MultihashInv
 
 namespace Sidetree.Props.C06
 open Sidetree Sidetree.Hashing
@@ -108,6 +109,15 @@ theorem undecodable_rejected (H : HashFam) (v : Json) (enc : String) (codes : Li
 theorem encoding_roundtrips (bs : Bytes) (n : Nat) (hn : n < 2 ^ 63) (rest : Bytes) :
     b64DecodeStr (b64EncodeStr bs) = some bs ∧ varintDecode (varintEncode n ++ rest) = some (n, rest) :=
   ⟨b64_decode_encode_str bs, varint_decode_encode n hn rest⟩
+
+/-- **one hash, one text** (D21): whatever `GetMultihash` — and with it every entry point that reads an
+    encoded hash — accepts is the canonical text of its code and digest; two accepted texts of the
+    same hash are the same string, so the parser's "commitments must differ" compares hashes -/
+theorem accepted_hash_is_canonical (enc : String) (c : Nat) (d : Bytes) (h : getMultihash enc = some (c, d)) :
+    enc = b64EncodeStr (mhEncode c d) := getMultihash_inv enc c d h
+
+theorem same_hash_same_text (a b : String) (cd : Nat × Bytes) (ha : getMultihash a = some cd) (hb : getMultihash b = some cd) :
+    a = b := one_hash_one_text a b cd ha hb
 
 /-! non-vacuity: the hypotheses are met by a concrete (toy) family and value -/
 def toyH : HashFam := fun c => if c = 18 then some (fun d => [d.length.toUInt8]) else none
